@@ -344,219 +344,86 @@ def _full_test(cond):
 
 
 def check_heap(ctx, db):
-    """heap sort (fallback of the introsort used by fracture and the OASIS writer): inclusive-bound
-    discipline. `end` is the LAST VALID index everywhere; every comparison of a child index with it is
-    `<=`; the slot that has just received the maximum is outside the range handed to sift_down."""
-    from .C19 import ieval
-    from ..flow import _strip_casts
-    norm = lambda t: re.sub(r'<[A-Za-z]+:(?!:)[^>]*>', '', t).replace('gdstk::', '')
-    n = 0
-    def defs_of(f, e):
-        """expressions that can define the value of e: e itself, or (for a local) every initialiser / assigned value"""
-        e = _strip_casts(e)
-        if e.k == 'DeclRefExpr' and e.dk == 'local':
-            key = lvalue_key(e)
-            out = [v.child('init') for v in f.walk() if v.k == 'VarDecl' and 'v%d:%s' % (v.d, v.n) == key and v.child('init') is not None]
-            out += [x.child('rhs') for x in f.walk() if is_assign(x) and x.op == '=' and lvalue_key(_strip_casts(x.child('lhs'))) == key]
-            return out or [e]
-        return [e]
+    ctx.memo('sort', {'include/gdstk/sort.hpp'}, check_sort_model, db)
 
-    def table(f, e, ks=range(0, 12)):
-        """{free variable: tuple of values for that variable = 0..11} over every definition of e; None if not evaluable.
-        Locals are followed through their definitions (`left = right - 1`, `right = 2j + 2`) down to one free parameter."""
-        def vals(x, name, k, depth=0):
-            """set of values of x when the free variable `name` is k"""
-            if depth > 6:
-                raise KeyError('depth')
-            loc = sorted({(y.n, y.d) for y in x.walk() if y.k == 'DeclRefExpr' and y.dk == 'local'})
-            if not loc:
-                return {ieval(x, {name: k})}
-            # substitute each local by each of its possible values
-            import itertools as _it
-            choices = []
-            for ln, ld in loc:
-                ref = next(y for y in x.walk() if y.k == 'DeclRefExpr' and y.dk == 'local' and y.d == ld)
-                vs = set()
-                for d_ in defs_of(f, ref):
-                    if d_ is ref or any(y.k == 'DeclRefExpr' and y.dk == 'local' and y.d == ld for y in d_.walk()):
-                        raise KeyError('self')
-                    vs |= vals(d_, name, k, depth + 1)
-                choices.append([(ln, v) for v in sorted(vs)])
-            out_ = set()
-            for combo in _it.product(*choices):
-                env = {name: k}
-                env.update(dict(combo))
-                out_.add(ieval(x, env))
-            return out_
-        out = set()
-        for d in defs_of(f, e):
-            frees = set()
-            def collect(x, depth=0):
-                for y in x.walk():
-                    if y.k == 'DeclRefExpr' and y.dk == 'param':
-                        frees.add(y.n)
-                    elif y.k == 'DeclRefExpr' and y.dk == 'local' and depth < 6:
-                        for d2 in defs_of(f, y):
-                            if d2 is not y and not any(z.k == 'DeclRefExpr' and z.dk == 'local' and z.d == y.d for z in d2.walk()):
-                                collect(d2, depth + 1)
-            collect(d)
-            names = sorted({x.n for x in d.walk() if x.k == 'DeclRefExpr' and x.dk in ('local', 'param')})
-            try:
-                if len(names) == 1 and (len(frees) != 1 or names[0] in frees):
-                    out.add((names[0], tuple(ieval(d, {names[0]: k}) for k in ks)))
+
+def check_sort_model(ctx, db):
+    """gdstk::sort and its parts interpreted (sa/minieval; the comparator is a Python function handed in as the function pointer) in
+    the instantiation for double: heap_sort and insertion_sort on every array over {0, 1, 2} of up to five (thorough: six) elements
+    and on rotations of 0..n-1, intro_sort with depth budgets 0, 1 and 3 on arrays of 17 to 40 elements (ascending, descending,
+    organ-pipe, constant, pseudo-random, median-of-three killers), sort() on the same, with `<` and with `>`. Required: the
+    result is the sorted permutation of the input; no element outside the array is touched. Index conventions (inclusive or
+    exclusive ends), loop and exit forms do not enter."""
+    from .. import minieval as M
+    import itertools as it
+    full = ctx.tier == 'thorough'
+
+    def fn(name, nparams):
+        c = [f_ for f_ in db.functions if f_.qn == 'gdstk::' + name and f_.targs == 'double' and len(f_.params) == nparams and f_.body is not None and 'Array' not in (f_.params[0].get('t') or '')]
+        if not c:
+            raise AnalysisBroken('sort.hpp: %s<double> with %d parameters not found' % (name, nparams))
+        ctx.touch(c[0])
+        return c[0]
+    hs, ins, intro, srt = fn('heap_sort', 3), fn('insertion_sort', 3), fn('intro_sort', 4), fn('sort', 3)
+    for nm in ('sift_down', 'leaf_search', 'partition'):
+        fn(nm, 4 if nm != 'partition' else 3)
+
+    def run(f_, arr, *extra):
+        lst = list(arr)
+        mi = M.Mini(db, budget=400000)
+        mi.writable.add(id(lst))
+        env = {f_.params[0]['n']: M.Ptr(lst, 0), f_.params[1]['n']: len(lst)}
+        for p_, v in zip(f_.params[2:], extra):
+            env[p_['n']] = v
+        try:
+            mi.run(f_.body, env)
+        except M.Return:
+            pass
+        return lst
+    lt, gt = (lambda a, b: int(a < b)), (lambda a, b: int(a > b))
+    bad = []
+    runs = 0
+    small = [list(a) for k in range(0, (7 if full else 6)) for a in it.product(range(3), repeat=k)] + [list(range(k, n)) + list(range(k)) for n in (4, 5, 6, 7) for k in range(n)]
+    for f_, label in ((hs, 'heap_sort'), (ins, 'insertion_sort')):
+        for a in small:
+            for cmp_, want in ((lt, sorted(a)), (gt, sorted(a, reverse=True))):
+                if cmp_ is gt and len(a) > 4:
                     continue
-                if len(frees) != 1:
-                    return None
-                nm = sorted(frees)[0]
-                cols = []
-                for k in ks:
-                    v = vals(d, nm, k)
-                    if len(v) != 1:
-                        return None
-                    cols.append(next(iter(v)))
-                out.add((nm, tuple(cols)))
-            except (AnalysisBroken, KeyError, OverflowError):
-                return None
-        return out
-
-    LEFT = tuple(2 * k + 1 for k in range(12))
-    RIGHT = tuple(2 * k + 2 for k in range(12))
-
-    def bound_tests(f, endkey):
-        """every relational test against the inclusive bound `end`: (node, other operand, inclusive?, governs a loop?)"""
-        out = []
-        for x in f.walk():
-            if x.k != 'BinaryOperator' or x.op not in ('<', '<=', '>', '>='):
-                continue
-            l, r = _strip_casts(x.child('lhs')), _strip_casts(x.child('rhs'))
-            if lvalue_key(r) == endkey:
-                other, op = l, x.op
-            elif lvalue_key(l) == endkey:
-                other, op = r, {'<': '>', '<=': '>=', '>': '<', '>=': '<='}[x.op]
-            else:
-                continue
-            # op is now the relation `other OP end`
-            y, prev = x.parent, x
-            while y is not None and y.k in ('ImplicitCastExpr', 'ParenExpr'):
-                prev, y = y, y.parent
-            neg = False
-            if y is not None and y.k == 'UnaryOperator' and y.op == '!':
-                neg = True
-                prev, y = y, y.parent
-            rel = {'<': '>=', '<=': '>', '>': '<=', '>=': '<'}[op] if neg else op
-            loop = y is not None and y.k in ('WhileStmt', 'ForStmt', 'DoStmt') and y.child('cond') is prev
-            out.append((x, other, rel, loop))
-        return out
-
-    for f in db.fn('gdstk::leaf_search', all=True)[:1]:
-        ctx.touch(f)
-        if len(f.params) < 3:
-            raise AnalysisBroken('leaf_search: expected (items, j, end, sorted)')
-        endkey = 'v%d:%s' % (f.params[2]['d'], f.params[2]['n'])
-        tests = bound_tests(f, endkey)
-        if len(tests) < 2:
-            raise AnalysisBroken('leaf_search: fewer than two comparisons with the inclusive bound `%s`' % f.params[2]['n'])
-        desc = [t for t in tests if t[3]]
-        lone = [t for t in tests if not t[3]]
-        if not desc or not lone:
-            raise AnalysisBroken('leaf_search: descent loop test / lone-left-child test not both found')
-        tabs = {}
-        for x, other, rel, loop in tests:
-            tb = table(f, other)
-            tabs[x.id] = None if tb is None else {t for _, t in tb}
-        okf = all(tabs[t[0].id] == {RIGHT} for t in desc) and all(tabs[t[0].id] == {LEFT} for t in lone)
-        ctx.check(okf, 'R-TABLE', 'leaf_search/child-indices', f.loc(), 'the descent test looks at the right child 2j+2 and the final test at the left child 2j+1 (every definition of the tested index evaluated for j = 0..11)',
-                  'tested child indices: descent %s, final %s (expected 2j+2 and 2j+1)' % ([sorted(tabs[t[0].id] or [])[:1] for t in desc], [sorted(tabs[t[0].id] or [])[:1] for t in lone]))
-        n += 2
-        bad = [t for t in desc if t[2] != '<=']
-        ctx.check(not bad, 'R-BOUND.inclusive', 'leaf_search/descend-while-right-child-exists', desc[0][0].loc(), 'the descent continues while the right child index is <= end (end is the last valid index): both children are compared',
-                  'descent condition is `%s`: with an inclusive `end` the right child at index end is never considered and the larger child can be missed' % norm(bad[0][0].text()) if bad else '')
-        bad = [t for t in lone if t[2] != '<=']
-        ctx.check(not bad, 'R-BOUND.inclusive', 'leaf_search/lone-left-child', lone[0][0].loc(), 'a lone left child at index <= end is taken', 'lone-left-child test is `%s`' % norm(bad[0][0].text()) if bad else '')
-        # the comparator is applied to the two children of the same node
-        cmpc = [c for c in f.walk() if c.k == 'CallExpr' and len(c.args) == 2 and all(_strip_casts(a).k == 'ArraySubscriptExpr' for a in c.args)]
-        okc = False
-        for c in cmpc:
-            ts = []
-            for a in c.args:
-                a = _strip_casts(a)
-                tb = table(f, a.child('idx') or a.c[1])
-                ts.append(None if tb is None else {t for _, t in tb})
-            if ts == [{LEFT}, {RIGHT}] or ts == [{RIGHT}, {LEFT}]:
-                okc = True
-        ctx.check(okc, 'R-SHAPE', 'leaf_search/compares-both-children', f.loc(), 'the two children (2j+1, 2j+2) are compared with each other')
-    PARENT = tuple((k - 1) >> 1 for k in range(1, 14))
-    for f in db.fn('gdstk::sift_down', all=True)[:1]:
-        ctx.touch(f)
-        shifts = [x for x in f.walk() if x.k == 'BinaryOperator' and x.op in ('>>', '/')]
-        good = 0
-        for x in shifts:
-            names = sorted({y.n for y in x.walk() if y.k == 'DeclRefExpr' and y.dk in ('local', 'param')})
+                runs += 1
+                try:
+                    r = run(f_, a, cmp_)
+                except M.OutOfBounds as ex:
+                    r = str(ex)
+                if r != want and len(bad) < 4:
+                    bad.append('%s(%s, %s) gives %s' % (label, a, '<' if cmp_ is lt else '>', r))
+    big = []
+    for n in (17, 18, 23, 32, 40):
+        x = 12345
+        rnd = []
+        for _ in range(n):
+            x = (x * 1103515245 + 12345) % (1 << 31)
+            rnd.append(x % 50)
+        big += [list(range(n)), list(range(n, 0, -1)), list(range(n // 2)) + list(range(n - n // 2, 0, -1)), [7] * n, rnd, [i_ % 2 for i_ in range(n)], list(range(1, n, 2)) + list(range(0, n, 2)), list(range(n - 1)) + [n + 5]]
+    for a in big:
+        for depth in (0, 1, 3):
+            runs += 1
             try:
-                if len(names) == 1 and tuple(ieval(x, {names[0]: k}) for k in range(1, 14)) == PARENT:
-                    good += 1
-            except (AnalysisBroken, OverflowError):
-                pass
-        ctx.check(len(shifts) >= 2 and good == len(shifts), 'R-TABLE', 'sift_down/parent-index', f.loc(), 'parent (j-1)>>1 at all %d sites (evaluated for j = 1..13), inverse of both child formulas' % len(shifts),
-                  '%d of %d parent-index computations differ from (j-1)>>1' % (len(shifts) - good, len(shifts)))
-        ls = [c for c in f.walk() if c.k == 'CallExpr' and (c.callee or '').endswith('leaf_search')]
-        ok = len(ls) == 1 and len(ls[0].args) >= 3 and [lvalue_key(_strip_casts(a)) for a in ls[0].args[:3]] == ['v%d:%s' % (p_['d'], p_['n']) for p_ in f.params[:3]]
-        ctx.check(ok, 'R-SHAPE', 'sift_down/forwards-range', f.loc(), 'the leaf search runs over the same inclusive range [start, end]')
-    for f in db.fn('gdstk::heap_sort', all=True)[:1]:
-        from .. import loops as LP
-        from ..linear import lin_add
-        ctx.touch(f)
-        calls = [c for c in f.walk() if c.k == 'CallExpr' and (c.callee or '').endswith('sift_down')]
-        if len(calls) != 2:
-            raise AnalysisBroken('heap_sort: expected two sift_down call sites')
-        n += 2
-        ck = 'v%d:%s' % (f.params[1]['d'], f.params[1]['n'])
-        want_last = {ck: 1, 1: -1}
-        L0 = LP.enclosing_loop(calls[0])
-        L1 = LP.enclosing_loop(calls[1])
-        if L0 is None or L1 is None:
-            raise AnalysisBroken('heap_sort: build / extraction loop not recognised')
-        lp0, lp1 = LP.Loop(f, L0), LP.Loop(f, L1)
-        a2 = lp0.lin(calls[0].args[2], calls[0])
-        if a2 is None:
-            raise AnalysisBroken('heap_sort: build-phase bound `%s` not affine' % norm(calls[0].args[2].text()))
-        ctx.check(not lin_add(a2, want_last, -1), 'R-BOUND.inclusive', 'heap_sort/build-range', calls[0].loc(), 'heap construction sifts within [start, count-1]: `end` is the last valid index', 'build phase passes end = %s' % norm(calls[0].args[2].text()))
-        sw = next((c for c in L1.walk() if c.k == 'CallExpr' and (c.callee or '').endswith('swap_values')), None)
-        if sw is None:
-            raise AnalysisBroken('heap_sort: extraction loop has no swap')
-        idx = [lp1.lin((x.child('idx') or x.c[1]), x) for x in sw.walk() if x.k == 'ArraySubscriptExpr']
-        if len(idx) != 2 or None in idx or not any(not i_ for i_ in idx):
-            raise AnalysisBroken('heap_sort: swap is not items[0] <-> items[<index>]')
-        top = next(i_ for i_ in idx if i_)
-        rng = lp1.lin(calls[1].args[2], calls[1])
-        trip = lp1.trip()
-        if rng is None or trip is None:
-            raise AnalysisBroken('heap_sort: extraction loop not summarised')
-        d = lin_add(rng, top, -1)
-        ctx.check(d == {1: -1} and sw.pos < calls[1].pos, 'R-BOUND.inclusive', 'heap_sort/extracted-maximum-leaves-the-heap', calls[1].loc(), 'after items[0] <-> items[m] the heap is re-established over [0, m-1]: the slot that received the maximum is excluded',
-                  'after the maximum is swapped into items[m] the sift range ends at m%+d: the just-placed maximum is pulled back into the heap' % d.get(1, 0) if set(d) <= {1} else 'sift range %s vs swapped index %s' % (rng, top))
-        ok = top.get(LP.K) == -1 and not lin_add({k_: v for k_, v in top.items() if k_ != LP.K}, want_last, -1) and not lin_add(trip, want_last, -1)
-        ctx.check(ok, 'R-LOOP', 'heap_sort/extraction-range', L1.loc(), 'extraction runs from the last index down to 1', 'iteration k swaps index %s, %s iterations' % (top, trip))
-    ctx.require('R-BOUND.inclusive comparisons', n, 4)
-    # saved elements are copies: a reference to items[k] would change under the shifts/swaps that follow
-    na = 0
-    for qn in ('gdstk::insertion_sort', 'gdstk::sift_down', 'gdstk::partition'):
-        for f in db.fn(qn, all=True)[:1]:
-            ctx.touch(f)
-            writes = [x for x in f.walk() if is_assign(x) and 'items[' in x.child('lhs').text()] + [c for c in f.walk() if c.k == 'CallExpr' and (c.callee or '').endswith('swap_values')]
-            for v in f.walk():
-                if v.k == 'VarDecl' and v.child('init') is not None and 'items[' in v.child('init').text() and not re.search(r'int|long', (v.t or '').split('&')[0]) :
-                    later = [w for w in writes if w.pos > v.pos]
-                    # a use counts as "after a store" when it comes after the whole storing statement (the right-hand side of the store itself is read before it)
-                    first_end = max((y.pos for y in later[0].walk()), default=-1) if later else -1
-                    in_loop_with_write = any(a.k in ('ForStmt', 'WhileStmt', 'DoStmt') and any(w_ in list(a.walk()) for w_ in later) and any(x.k == 'DeclRefExpr' and x.n == v.n for x in a.walk()) for a in f.walk())
-                    used_after = any(x.k == 'DeclRefExpr' and x.n == v.n and later and x.pos > first_end for x in f.walk()) or (bool(later) and in_loop_with_write)
-                    if not (later and used_after):
-                        continue
-                    na += 1
-                    ctx.check('&' not in (v.t or ''), 'R-ALIAS', '%s/%s-is-a-copy' % (qn.replace('gdstk::', ''), v.n), v.loc(), '`%s` holds a copy of the element, so later stores into the array cannot change it' % v.n,
-                              '`%s` is a reference (%s) to an array element that the following shifts/swaps overwrite: the saved value is lost' % (v.n, v.t))
-    ctx.require('R-ALIAS saved elements', na, 2)
+                r = run(intro, a, depth, lt)
+            except M.OutOfBounds as ex:
+                r = str(ex)
+            if r != sorted(a) and len(bad) < 4:
+                bad.append('intro_sort(%s, depth budget %d) gives %s' % (a, depth, r))
+        runs += 1
+        try:
+            r = run(srt, a, gt)
+        except M.OutOfBounds as ex:
+            r = str(ex)
+        if r != sorted(a, reverse=True) and len(bad) < 4:
+            bad.append('sort(%s, >) gives %s' % (a, r))
+    ctx.explored['valuations'] += runs
+    ctx.check(not bad, 'R-MODEL.sort', 'sort.hpp/orders-every-array', hs.loc(), 'interpreted on %d arrays: heap_sort, insertion_sort, intro_sort (heap fallback and partition paths) and sort return the sorted permutation of their input' % runs,
+              'sorting is wrong: ' + '; '.join(bad[:3]))
+    ctx.require('R-MODEL.sort arrays interpreted', runs, 700)
 
 
 def check_single_removal(ctx, db):
